@@ -73,3 +73,126 @@ def boundary_values(ty):
     return [0, 1 << 63, 0x3ff0000000000000, 0xbff0000000000000, 0x0010000000000000, 0x7fefffffffffffff,
             0xffefffffffffffff, 1, 0x000fffffffffffff, (1 << 63) | 1, 0x7ff0000000000000, 0xfff0000000000000,
             0x7ff8000000000000, 0x7ff0000000000001, 0xfff8000000012345, 0x4004000000000000, 0x4000000000000001]
+
+
+# --------------------------------------------------------------------------- table family TF
+
+def value_set(ty, rnd):
+    """(lo, hi, default, inside values, outside values) as bit patterns"""
+    if ty in (U16, U32, U64):
+        lo, hi = rnd.choice([(10, 20), (1, 0xFFFE), (0x100, 0x1FF), (2, 2)])
+        if ty != U16 and rnd.random() < 0.5:
+            sh = BITS[ty] - 16
+            lo, hi = (lo << sh), (hi << sh) | 0xFF00
+        ins = [lo, hi, (lo + hi) // 2]
+        outs = [lo - 1, hi + 1, (1 << BITS[ty]) - 1, 0] if lo > 0 else [hi + 1]
+        return lo, hi, rnd.choice([lo, hi]), ins, [o & ((1 << BITS[ty]) - 1) for o in outs]
+    if ty in (S16, S32, S64):
+        lo, hi = rnd.choice([(-2, 3), (-100, -50), (5, 1000), (0, 0)])
+        m = (1 << BITS[ty]) - 1
+        ins = [lo & m, hi & m, ((lo + hi) // 2) & m]
+        outs = [(lo - 1) & m, (hi + 1) & m, 1 << (BITS[ty] - 1), (1 << (BITS[ty] - 1)) - 1]
+        return lo & m, hi & m, lo & m, ins, outs
+    f = f32 if ty == F32 else f64
+    lo, hi = rnd.choice([(-1.0, 2.5), (0.5, 0.75), (-8.0, -2.0), (0.0, 1.0)])
+    ins = [f(lo), f(hi), f((lo + hi) / 2)]
+    outs = [f(lo - 1.0), f(hi + 3.0)]
+    return f(lo), f(hi), f(lo), ins, outs
+
+
+def undecodable(ty):
+    if ty == F32:
+        return [0x7fc00000, 0x7f800000, 0xff800000, 0x00000001, 0x807fffff, 0x7f800001]
+    if ty == F64:
+        return [0x7ff8000000000000, 0x7ff0000000000000, 0xfff0000000000000, 1, 0x800fffffffffffff]
+    return []
+
+
+def make_table(rnd, types, window=14, want_holes=True):
+    """a well-formed table (python description + per register value sets)"""
+    be = rnd.randint(0, 1)
+    na = rnd.choice([1, 2, 2, 3])
+    # carve areas out of [1, window]
+    pos = 1 + rnd.randint(0, 2)
+    areas = []
+    for i in range(na):
+        size = rnd.choice([1, 2, 3, 4, 5, 6])
+        if pos + size > window + 1:
+            break
+        fl = rnd.random()
+        rd, wr, hasw = 1, 1, 1
+        if fl < 0.15:
+            wr = 0            # read-only by flag
+        elif fl < 0.25:
+            rd = 0            # write-only
+        elif fl < 0.30:
+            hasw = 0          # no write callback at all
+        areas.append(area(pos, size, rd, wr, rnd.choice([0, 0, 0, 1]), hasw, rnd.choice([0, 0, 1])))
+        pos += size + (rnd.choice([0, 0, 1, 2]) if want_holes else 0)
+    regs, info = [], []
+    for (base, size, rd, wr, skip, hasw, kind) in areas:
+        a = base
+        while a < base + size:
+            if rnd.random() < 0.25:
+                a += 1          # gap between registers
+                continue
+            ty = rnd.choice(types)
+            if a + SIZE[ty] > base + size:
+                ty = rnd.choice([t for t in types if SIZE[t] == 1] or [U16])
+                if a + SIZE[ty] > base + size:
+                    break
+            lo, hi, df, ins, outs = value_set(ty, rnd)
+            ck = rnd.choice([0, 2, 3, 4, 4, 5, 1] if ty not in (F32, F64) else [0, 2, 3, 4, 4])
+            if ck == 5:
+                df = (df & ~0xFFFF) | 2
+                ins = [(x & ~0xFFFF) | 2 for x in ins] + [0, 0xFFFF & ((1 << BITS[ty]) - 1)]
+                outs = [(x & ~0xFFFF) | 1 for x in ins] + [1]
+            if ck == 0:
+                outs = []
+            if ck == 1:
+                ins, outs = [], ins + outs      # always-fail: nothing may be written
+            if ck == 2:
+                outs = [o for o in outs if o != ((hi + 1) & ((1 << BITS[ty]) - 1))][:1] if ty in (U16, U32, U64, S16, S32, S64) else outs[:1]
+                ins = ins + ([((hi + 1) & ((1 << BITS[ty]) - 1))] if ty in (U16, U32, U64) and hi + 1 < (1 << BITS[ty]) else [])
+            if ck == 3:
+                outs = outs[1:2]
+            regs.append(reg(ty, a, ck, lo, hi, df))
+            info.append(dict(ty=ty, addr=a, ck=ck, ins=ins, outs=outs, und=undecodable(ty)))
+            a += SIZE[ty]
+    return dict(be=be, areas=areas, regs=regs, info=info)
+
+
+def table_line(t):
+    return tinit(t['be'], t['areas'], t['regs'])
+
+
+def words_of(t, ty, bits):
+    """words of a value at ascending addresses, in the table's order"""
+    ws = w4(bits)[4 - SIZE[ty]:]
+    return ws if t['be'] else ws[::-1]
+
+
+def block_for(t, rnd, addr, n, mode):
+    """n words for a block at addr: per overlapped register a value chosen by mode
+    ('in' keeps it valid, 'out' violates a constraint, 'und' does not decode, 'ones', 'zero', 'rand')"""
+    ws = [rnd.choice([0, 0xFFFF, rnd.randint(0, 0xFFFF)]) for _ in range(n)]
+    if mode == 'ones':
+        return [0xFFFF] * n
+    if mode == 'zero':
+        return [0] * n
+    if mode == 'rand':
+        return ws
+    for inf in t['info']:
+        a, sz = inf['addr'], SIZE[inf['ty']]
+        if a < addr + n and addr < a + sz:
+            pool = inf['ins'] if mode == 'in' else (inf['outs'] if mode == 'out' else inf['und'])
+            if mode == 'mixed':
+                pool = rnd.choice([inf['ins'], inf['ins'], inf['outs'], inf['und']])
+            if not pool:
+                pool = inf['ins'] or [0]
+            rw = words_of(t, inf['ty'], rnd.choice(pool))
+            for k in range(sz):
+                x = a + k
+                if addr <= x < addr + n:
+                    ws[x - addr] = rw[k]
+    return ws
